@@ -10,7 +10,7 @@ use proptest::prelude::*;
 use serde::{Deserialize, Serialize};
 use serde_json::json;
 
-pub const RULE: &str = "round trips: legal positions built without the reader (Board::try_from + Game::from_state from a reference position, clocks and move numbers up to 2^31-1): write(g) must equal the reference FEN and parse(write(g)) must equal g in placement, side, rights, e.p. target, halfmove clock, plies and key; canonical FEN texts written by the reference model: write(parse(t)) == t. Hostile text: arbitrary Unicode strings, strings from FEN-shaped regular expressions, and systematic corruptions of valid FENs (a digit +-1, piece inserted/deleted, rank-width pairs that keep the total at 64, 7 or 9 ranks, counters 0 / -1 / 2^31 / 2^32 / 99999999999 / letters, fields missing, duplicated, reordered, tabs, blanks): never a panic; if an independent tokeniser finds a rank whose width is not 8 the result must be Err; if the result is Ok the placement must equal the tokeniser's decoding and write must not panic. Non-trivial = (round trips) position with e.p. target, partial rights or clock > 0; (hostile) text whose first field passes the FEN character set; distinct by text.";
+pub const RULE: &str = "round trips: legal positions built without the reader (Board::try_from + Game::from_state from a reference position, clocks and move numbers up to 2^31-1): write(g) must equal the reference FEN and parse(write(g)) must equal g in placement, side, rights, e.p. target, halfmove clock, plies and key; canonical FEN texts written by the reference model: write(parse(t)) == t. Hostile text: arbitrary Unicode strings, strings from FEN-shaped regular expressions, and systematic corruptions of valid FENs (a digit +-1, piece inserted/deleted, rank-width pairs that keep the total at 64, 7 or 9 ranks, counters 0 / -1 / 2^31 / 2^32 / 99999999999 / letters, fields missing, duplicated, reordered, tabs, blanks): never a panic; if an independent tokeniser finds a rank whose width is not 8 the result must be Err; if the result is Ok the placement must equal the tokeniser's decoding and write must not panic. Every walk is also played on one engine Game and each position reached by play is written, read back and compared (text, fields, key) as well. Non-trivial = (round trips) position with e.p. target, partial rights or clock > 0; (hostile) text whose first field passes the FEN character set; distinct by text.";
 
 const BIG: [u32; 14] = [0, 1, 2, 49, 50, 99, 100, 101, 150, 5000, 0x7fff_fffe, 0x7fff_ffff, 0x8000_0000, 65536];
 
@@ -241,7 +241,45 @@ pub fn run(run: &mut Run) -> &'static str {
         // every fifth case uses the dense theme (the longest board fields), with ten-digit counters
         let dense = c.clock % 5 == 0;
         let mix = if dense { Mix::Dense } else { Mix::General };
-        for (i, gp) in c.pos.positions(mix, if dense { 3 } else { 16 }, st).into_iter().enumerate() {
+        let walk = c.pos.positions(mix, if dense { 3 } else { 16 }, st);
+        // the same walk is also played on one engine Game (make_move): a position reached by play must
+        // survive the round trip just like one that was set up, key included
+        let mut played: Option<crate::chess::game::Game> = None;
+        for (i, gp) in walk.iter().enumerate() {
+            if i == 0 {
+                played = Some(to_game(&gp.pos));
+            } else if let Some(g) = played.as_mut() {
+                let prev = &walk[i - 1].pos;
+                let mv = prev.legal_moves().into_iter().find(|m| prev.make(m) == gp.pos);
+                match mv.and_then(|m| find_move(g, &m)) {
+                    Some(em) => {
+                        g.make_move(em);
+                        st.eval();
+                        st.class("position_reached_by_play");
+                        let want = gp.pos.to_fen();
+                        let exp = || json!({"pos": {"Pair": [prev.to_fen(), want]}, "clock": 1, "number": 1});
+                        let text = fen::write(g);
+                        if text != want {
+                            return Err(Fail::new("writer_text:reached_by_play", format!("fen::write of a game reached by play gives {text:?}, reference text is {want:?}")).explicit(exp()));
+                        }
+                        match catch(|| fen::parse(&text)) {
+                            Ok(Ok(g2)) => {
+                                if g2.zobrist != g.zobrist {
+                                    return Err(Fail::new("round_trip_key:reached_by_play", format!("{want} reached by play (from {}) carries key {:#x}, but parse(write(g)) has key {:#x}", walk[0].pos.to_fen(), g.zobrist.0, g2.zobrist.0)).explicit(exp()));
+                                }
+                                if from_game(&g2) != from_game(g) || g2.halfmove_clock != g.halfmove_clock || g2.plies != g.plies {
+                                    return Err(Fail::new("round_trip_position:reached_by_play", format!("parse(write(g)) differs from the game reached by play at {want}")).explicit(exp()));
+                                }
+                            }
+                            Ok(Err(e)) => return Err(Fail::new("reader_rejects_own_output", format!("fen::parse rejects the writer's output {text:?}: {e}")).explicit(exp())),
+                            Err(pm) => return Err(Fail::new(&format!("reader_panic:{}", panic_signature(&pm)), format!("fen::parse panicked on {text:?}: {pm}")).explicit(exp())),
+                        }
+                    }
+                    None => played = None,
+                }
+            }
+        }
+        for (i, gp) in walk.into_iter().enumerate() {
             let mut p = gp.pos.clone();
             if (i % 3 == 0 || dense) && matches!(c.pos, PosCase::Tape(_)) {
                 // extreme clocks and move numbers
